@@ -345,7 +345,7 @@ PROPS["C02"] = {
     "kernels": ["is_failure", "is_abortable", "with_done", "with_failure"],
     "facts": COMPOSE_FACTS + ["bodies/retryexecutor:executor.OnFailure", "bodies/retryexecutor:executor.Apply", "bodies/retry:retryPolicy.ToExecutor",
                               "bodies/retry:config.Build", "effects/retry:config.allowsRetries"],
-    "required_theorems": ["Failsafe.Props.C02.retry_budget", "Failsafe.Props.C02.budget_fresh", "Failsafe.Props.C02.retry_stops_on_success",
+    "required_theorems": ["Failsafe.Props.C02.retry_budget", "Failsafe.Props.C02.retry_invocations_bounded", "Failsafe.Props.C02.retry_only_policy_invocations", "Failsafe.Props.C02.budget_fresh", "Failsafe.Props.C02.retry_stops_on_success",
                           "Failsafe.Props.C02.retry_final_result", "Failsafe.Props.C02.retry_abort_stops", "Failsafe.Props.C02.retry_exhausted_passthrough",
                           "Failsafe.Props.C02.retryOnFailure_failed", "Failsafe.Props.C02.retryOnFailure_exceeded", "Failsafe.Props.C02.retryOnFailure_not_done",
                           "Failsafe.Props.C02.retry_stops_after_max_duration"],
@@ -354,7 +354,7 @@ PROPS["C02"] = {
     "modelled": COMPOSE_MODELLED + ["max duration: in the model `ElapsedTime() > maxDuration` holds exactly when a 'sleeping' outcome (75 ms against a 45 ms max duration) has occurred in the execution; scripts with sleeping outcomes contain no blocking ones and no hedge; the delay clamp is C13",
                                     "concurrent executions sharing one policy: the executor state is per execution by construction (ToExecutor body fact); schedules are sampled by the C14 stress run"],
     "manifest": {
-        "text": "Lean 4 theorems about the retry layer for an arbitrary inner layer: with maxRetries = m >= 0 the executor counts at most m+1 failures per execution and is exhausted once the count passes m (inductive invariant Budget over the loop, any fuel), so it re-invokes what it wraps at most m times; a non-failure ends the loop at once unchanged; an abort match ends it; a failure handled once the max duration has elapsed ends the loop whatever the budget (retry_stops_after_max_duration); the final result is ExceededError{last result, last error} when exhausted (the last outcome itself with ReturnLastFailure), else the stopping outcome unchanged; an exhausted executor passes inner results through; every execution starts from an empty executor state. Tie: FACTS (bodies of OnFailure, Apply, ToExecutor, Build), GEN (IsFailure, IsAbortable, flag algebra), DIFF of random stacks incl. nested retries, maxRetries in {0,1,2,3,-1}, overlapping handle/abort conditions.",
+        "text": "Lean 4 theorems about the retry layer for an arbitrary inner layer: with maxRetries = m >= 0 the executor counts at most m+1 failures per execution and is exhausted once the count passes m (inductive invariant Budget over the loop, any fuel), so it re-invokes what it wraps at most m times; around an inner layer that invokes the function at most once per call the function is invoked at most m+1 times (retry_invocations_bounded; for the stack consisting of the retry policy alone, every script and every scripted cancellation: retry_only_policy_invocations); a non-failure ends the loop at once unchanged; an abort match ends it; a failure handled once the max duration has elapsed ends the loop whatever the budget (retry_stops_after_max_duration); the final result is ExceededError{last result, last error} when exhausted (the last outcome itself with ReturnLastFailure), else the stopping outcome unchanged; an exhausted executor passes inner results through; every execution starts from an empty executor state. Tie: FACTS (bodies of OnFailure, Apply, ToExecutor, Build), GEN (IsFailure, IsAbortable, flag algebra), DIFF of random stacks incl. nested retries, maxRetries in {0,1,2,3,-1}, overlapping handle/abort conditions.",
         "note": "Trusted: Lean kernel; translator/fact extractor; harness. Max duration enters the model through scripted outcomes that outlast it (real time in the DIFF with wide margins). Concurrency clause rests on the per-execution executor (FACTS) and the C14 stress run.",
         "technique": "Lean 4 proof (inductive invariant over the retry loop, arbitrary inner layer) + structural facts + differential correspondence"},
 }
